@@ -3,7 +3,7 @@ from ..core import AnalysisError, term_s, subterms
 from . import conn
 from .c06 import fifo
 from .conn import leaves, ret_kind, self_field
-from .util import const_of, is_call, last_seg, look, norm, truth, option_is_some
+from .util import as_sum, const_of, is_call, last_seg, look, norm, truth, option_is_some
 
 EXPLANATION = (
     "Static decision of the carry-over mechanism that makes parsing independent of segmentation: a "
@@ -165,7 +165,8 @@ def shift(ctx):
                     seen.add("copy")
                     src = look(val[2])
                     ok_dst = range_item(dst, lambda x: const_of(x) == 0, delta)
-                    ok_src = src[0] == "field" and src[1][0] == "bin" and src[1][1] in ("AddWithOverflow", "Add") and look(src[1][2]) == ("arg", 2) and norm(look(src[1][3])) == norm(look(dst))
+                    sm = as_sum(src)
+                    ok_src = sm is not None and ((look(sm[0]) == ("arg", 2) and norm(look(sm[1])) == norm(look(dst))) or (look(sm[1]) == ("arg", 2) and norm(look(sm[0])) == norm(look(dst))))
                     moved = conn.atom_truth(lf, lambda t: t[0] == "bin" and t[1] == "Ne" and look(t[2]) == ("arg", 2) and const_of(t[3]) == 0)
                     ctx.ob("R01.3", "copy-loop", ok_dst and ok_src and moved is True, "for i in 0..end-start: buffer[i] = buffer[start + i], only when start != 0 (dst %s, src %s, guard %s)" % (ok_dst, ok_src, moved), fn.loc(e[1]))
                 elif val == ("const", 0):
